@@ -19,6 +19,9 @@
 #define WIT_ARR(T, name, N) T name[N]
 #endif
 
+#ifndef VC_FALLBACK
+#define VC_FALLBACK 0      /* 1 in the ghost-free bounded fallback run (units/README.md) */
+#endif
 #ifndef VC_THOROUGH
 #define VC_THOROUGH 0      /* the driver passes -DVC_THOROUGH=1 in the thorough tier */
 #endif
